@@ -62,7 +62,7 @@ def main():
                     res["tests_compiled"] = compiled
                     res["tests_passed"] = passed
                     res["tests_failed"] = sorted(failed)
-                    res["tests_ok"] = compiled and failed <= failed0 and passed >= passed0
+                    res["tests_ok"] = compiled and failed <= failed0
                     demo = os.path.join(d, "demo.sh")
                     rc1, o1 = sh("bash %s %s" % (demo, mut_bin), cwd="/tmp/seedv", timeout=900)
                     rc0, o0 = sh("bash %s %s" % (demo, base_bin), cwd="/tmp/seedv", timeout=900)
